@@ -492,6 +492,9 @@ class Sym:
                         finally:
                             s._prop_depth -= 1
             if base[0] == 'call' and base[1][0] == 'g':
+                rf_ = s._returned_fields(base)
+                if rf_ and n.attr in rf_:
+                    return ('sub', base, ('c', rf_.index(n.attr)))            # f(...).name where f returns NT(...): the component of that name
                 flds = s.model.tuple_fields(base[1])
                 if flds and n.attr in flds and not any(a_[0] == 'star' for a_ in base[2]) and not any(k_ == '**' for k_, _ in base[3]):
                     byname = dict(zip(flds, base[2]))
@@ -556,8 +559,14 @@ class Sym:
                 if isinstance(a, ast.Starred):
                     sv = T(a.value)
                     ar = s._tuple_arity(sv)
+                    nt_ = s.model.tuple_fields(sv[1]) if sv[0] == 'call' and sv[1][0] == 'g' else None
                     if sv[0] in ('tuple', 'list') and not any(x[0] == 'star' for x in sv[1]):
                         args.extend(sv[1])                      # f(*(a, b, c)) == f(a, b, c)
+                    elif nt_ and not any(a_[0] == 'star' for a_ in sv[2]) and not any(k_ == '**' for k_, _ in sv[3]) and len(sv[2]) + len(sv[3]) == len(nt_) \
+                            and {k_ for k_, _ in sv[3]} == set(nt_[len(sv[2]):]):
+                        byname_ = dict(zip(nt_, sv[2]))
+                        byname_.update(dict(sv[3]))
+                        args.extend(byname_[f_] for f_ in nt_)   # f(*NT(a, b, c)) == f(a, b, c)
                     elif ar is not None:
                         args.extend(('sub', sv, ('c', i_)) for i_ in range(ar))     # f(*g()) with g always returning an n-tuple
                     else:
@@ -635,6 +644,10 @@ class Sym:
             return ('call', f, tuple(args), tuple(kws))
         if isinstance(n, ast.Subscript):
             bv, iv = T(n.value), T(n.slice)
+            if iv[0] == 'c' and isinstance(iv[1], int) and not isinstance(iv[1], bool):
+                nt_ = s._nt_as_tuple(bv)
+                if nt_ is not None and -len(nt_[1]) <= iv[1] < len(nt_[1]):
+                    return nt_[1][iv[1]]         # NT(a, b)[0] is a
             if bv[0] == 'dict' and iv[0] == 'c':
                 hit = [vv for kk, vv in bv[1] if kk == iv]
                 if len(hit) == 1:
@@ -779,6 +792,41 @@ class Sym:
                 else:
                     return None
         return ns.pop() if len(ns) == 1 else None
+
+    def _returned_fields(s, t):
+        """field names when the term is a call of a repository function whose every return statement builds the same NamedTuple of
+        the package (NT(...) or NT.<classmethod>(...)): f(...).name is then component index(name) of the tuple f returns"""
+        if t[0] != 'call' or t[1][0] != 'g':
+            return None
+        lk = s.model.lookup(t[1])
+        if not lk or lk[0] != 'func':
+            return None
+        fm = getattr(lk[1], '_home', t[1][1])
+        seen = set()
+        for r in ast.walk(lk[1]):
+            if not isinstance(r, ast.Return):
+                continue
+            v = r.value
+            if not isinstance(v, ast.Call):
+                return None
+            f = v.func
+            cname = f.id if isinstance(f, ast.Name) else (f.value.id if isinstance(f, ast.Attribute) and isinstance(f.value, ast.Name) else None)
+            if cname is None:
+                return None
+            g = s.model.resolve_global(fm, cname)
+            lkc = s.model.lookup(g)
+            if not lkc or lkc[0] != 'class' or not s.model.tuple_fields(g):
+                return None
+            if isinstance(f, ast.Attribute):
+                mm = s.model.find_method(g[1], lkc[1], f.attr)
+                if mm is None or not any(isinstance(d, ast.Name) and d.id == 'classmethod' for d in mm[2].decorator_list):
+                    return None
+                me = mm[2].args.args[0].arg if mm[2].args.args else None
+                rets = [x for x in ast.walk(mm[2]) if isinstance(x, ast.Return)]
+                if not rets or not all(isinstance(x.value, ast.Call) and isinstance(x.value.func, ast.Name) and x.value.func.id == me for x in rets):
+                    return None
+            seen.add(tuple(s.model.tuple_fields(g)))
+        return list(seen.pop()) if len(seen) == 1 else None
 
     def run(s, mod, fn, args=None, cls=None, self_term=None, depth=0):
         """enumerate paths of function node `fn`; args: dict param -> term (default ('p', name))"""
@@ -933,10 +981,22 @@ class Sym:
         if not isinstance(expr, (ast.Constant, ast.Name)):
             leaf.effects.append(('eval', s.T(expr, leaf), None, expr, len(leaf.conds)))
 
+    def _nt_as_tuple(s, val):
+        """NT(a, b=c) of a package NamedTuple as the tuple of its components (None when the term is not such a construction)"""
+        if val[0] == 'call' and val[1][0] == 'g' and len(val) >= 4:
+            nt_ = s.model.tuple_fields(val[1])
+            if nt_ and not any(a_[0] == 'star' for a_ in val[2]) and not any(k_ == '**' for k_, _ in val[3]) and len(val[2]) + len(val[3]) == len(nt_) \
+                    and {k_ for k_, _ in val[3]} == set(nt_[len(val[2]):]):
+                byname_ = dict(zip(nt_, val[2]))
+                byname_.update(dict(val[3]))
+                return ('tuple', tuple(byname_[f_] for f_ in nt_))
+        return None
+
     def assign_target(s, tgt, val, leaf, node):
         if isinstance(tgt, ast.Name):
             leaf.env[tgt.id] = val
         elif isinstance(tgt, (ast.Tuple, ast.List)):
+            val = s._nt_as_tuple(val) or val          # a, b = NT(x, y)
             if val[0] in ('tuple', 'list') and len(val[1]) == len(tgt.elts) and not any(isinstance(e, ast.Starred) for e in tgt.elts):
                 for t, v in zip(tgt.elts, val[1]):
                     s.assign_target(t, v, leaf, node)
@@ -1037,6 +1097,8 @@ class Sym:
                     r = m.find_method(g[1], lk[1], f.attr)
                     if r and any(isinstance(d, ast.Name) and d.id == 'staticmethod' for d in r[2].decorator_list):
                         tgt = (r[0], r[1], r[2], False, '%s.%s.%s' % (r[0], r[1].name, r[2].name))
+                    elif r and any(isinstance(d, ast.Name) and d.id == 'classmethod' for d in r[2].decorator_list) and len(r[2].decorator_list) == 1:
+                        tgt = (r[0], r[1], r[2], ('classmethod', g), '%s.%s.%s' % (r[0], r[1].name, r[2].name))     # Cls.make(...): cls is that class
                     elif r and s._cls is not None and call.args and isinstance(call.args[0], ast.Name) and call.args[0].id == 'self' and leaf.env.get('self', ('self',)) == ('self',) \
                             and not m.is_property(r[2]) and not any(isinstance(d, ast.Name) and d.id in ('staticmethod', 'classmethod') for d in r[2].decorator_list):
                         dm, dc = getattr(s, '_dyn', (s._mod, s._cls))
@@ -1110,7 +1172,10 @@ class Sym:
         mod2 = getattr(fn, '_home', mod2)          # the module whose names the body refers to (a moved helper keeps its legacy identity in terms)
         params = [a.arg for a in fn.args.posonlyargs + fn.args.args]
         env = {}
-        if bound and params:
+        if isinstance(bound, tuple) and bound[0] == 'classmethod' and params:
+            env[params[0]] = bound[1]
+            params = params[1:]
+        elif bound and params:
             env[params[0]] = ('self',)
             params = params[1:]
         elif cls2 is not None and params and params[0] == 'self':
@@ -1567,6 +1632,7 @@ class Sym:
                     dt = s.term(lk[1], {}, dt[1], None)
             if dt[0] == 'dict':
                 it = ('tuple', tuple({'items': ('tuple', (kk, vv)), 'keys': kk, 'values': vv}[it[1][2]] for kk, vv in dt[1]))
+        it = s._nt_as_tuple(it) or it              # for x in NT(a, b): over its components
         if it[0] in ('tuple', 'list') and len(it[1]) <= 8 and not st.orelse:
             cur = [leaf]
             for el in it[1]:
